@@ -44,7 +44,7 @@ class NextHop(Attribute):
         Parse BGP nexthop.
         :param value: raw binary value
         """
-        if len(value) % 4 == 0:
+        if len(value) == 4:
             next_hop = str(netaddr.IPAddress(int(binascii.b2a_hex(value[0:4]), 16)))
             return next_hop
         else:
